@@ -135,7 +135,8 @@ class Ctx:
             return
         if len(self.violations) >= MAX_VIOLATIONS_PER_SHARD:
             return
-        self.violations.append({'mech': mech, 'msg': msg, 'case': case, 'detail': detail})
+        self.violations.append({'mech': mech, 'msg': msg, 'case': case, 'detail': detail,
+                                'shard': self.shard, 'nshards': self.nshards})
 
     def dump(self):
         return {
@@ -268,7 +269,7 @@ def run_property(prop, tier, seed, replay=None):
     if replay:
         with open(replay) as f:
             rec = json.load(f)
-        ctx = Ctx(prop, rec.get('tier', tier), rec.get('seed', seed), 0, 1, 3600)
+        ctx = Ctx(prop, rec.get('tier', tier), rec.get('seed', seed), rec.get('shard', 0), rec.get('nshards', 1), 3600)
         check.replay(ctx, rec.get('case'))
         for v in ctx.violations:
             print(f"REPLAY-VIOLATION property={prop} mech={v['mech']} {v['msg']}")
